@@ -237,6 +237,9 @@ type Record struct {
 	Violations   []Violation     `json:"violations"`
 	Plan         json.RawMessage `json:"plan"`
 	Sample       string          `json:"sample"`
+	NoisyOps     []string        `json:"noisy_ops"`
+	SlowOps      []string        `json:"slow_ops"`
+	NoisyDiff    string          `json:"noisy_diff"`
 }
 
 // covRec: dense accumulator in the driver; workers send only the sites they touched.
